@@ -1,7 +1,12 @@
 (* Per-run instance obligation of C06: the type-order table regenerated from the current base.py
    gives bool/int/float one rank and pairwise different ranks to the other kinds. *)
-From PG Require Import Gen.TypeOrder Model.Compare.
+From PG Require Import Gen.TypeOrder Gen.CompareDispatch Model.Compare Proofs.CompareDispatch.
 Lemma generated_table_ok : ranks_ok tbl = true.
+Proof. vm_compute. reflexivity. Qed.
+
+(* second per-run obligation: the branch order of base.eq / base.lt regenerated from the current source dispatches every
+   kind (pair) to the branch the model's eq_f / lt_f take *)
+Lemma generated_dispatch_ok : dispatch_ok eq_branches lt_branches = true.
 Proof. vm_compute. reflexivity. Qed.
 
 (* the hypotheses of the C06 theorems are satisfiable by non-trivial inputs *)
